@@ -49,14 +49,13 @@ package executor
 //@ func (s msgServer) PauseAction(ctx, msg) (resp, err)
 //@   requires[base] msg != nil && s.Executor != nil && s.Authorizer != nil && s.Executor.eventService != nil
 //@   modifies ks_i32, events
-//@   ensures[C09] err == nil ==> exists a int :: !old(actionPaused(s.Executor, a)) && actionSetIs(s.Executor, a, true) && okAction(a)
-//@   ensures[C09] err != nil ==> ks_i32 == old(ks_i32) || (exists a int :: actionSetIs(s.Executor, a, true))
+//@   ensures[C09] err == nil ==> !old(actionPaused(s.Executor, actionByName(msg.ActionId))) && actionSetIs(s.Executor, actionByName(msg.ActionId), true) && okAction(actionByName(msg.ActionId))
 
 //@ func (s msgServer) UnpauseAction(ctx, msg) (resp, err)
 //@   requires[base] msg != nil && s.Executor != nil && s.Authorizer != nil && s.Executor.eventService != nil
 //@   modifies ks_i32, events
-//@   ensures[C09] err == nil ==> exists a int :: old(actionPaused(s.Executor, a)) && actionSetIs(s.Executor, a, false)
+//@   ensures[C09] err == nil ==> old(actionPaused(s.Executor, actionByName(msg.ActionId))) && actionSetIs(s.Executor, actionByName(msg.ActionId), false)
 
 //@ func (s queryServer) IsActionPaused(ctx, req) (resp, err)
 //@   requires[base] s.Executor != nil
-//@   ensures[C09] err == nil ==> resp != nil && exists a int :: resp.IsPaused == actionPaused(s.Executor, a)
+//@   ensures[C09] err == nil ==> resp != nil && req != nil && resp.IsPaused == actionPaused(s.Executor, actionByName(req.ActionId))
